@@ -5,7 +5,8 @@
     [X690.der_encode] the independent specification of the distinguished
     encoding (Ber/X690.v), [scope_enc] the decidable scope predicate of
     Ber/BerScope.v. *)
-From Asn1V Require Import Base.Prelude Syntax.Asn1 Ber.X690 Ber.BerScope Ber.DerImpl Ber.DerRefine.
+From Asn1V Require Import Base.Prelude Syntax.Asn1 Ber.X690 Ber.BerScope Ber.DerImpl Ber.DerRefine
+     Ber.X690Canon Ber.DerCanon Ber.BerTrunc.
 
 (** Whenever X.690 defines the distinguished encoding [bs] of [v] (definite
     minimal lengths, minimal tag and integer octets, primitive strings, TRUE =
@@ -22,6 +23,53 @@ Theorem C03_der_refines_x690 :
     DerImpl.der_encode numeric fuel e t v = Ok bs.
 Proof. exact der_refines_x690. Qed.
 Print Assumptions C03_der_refines_x690.
+
+(** Two equal abstract values always encode to identical bytes.  [veq]
+    (Ber/X690Canon.v): an absent root component equals one present with its
+    DEFAULT value, bit strings are equal modulo unused bits (named-bit strings
+    modulo trailing zero bits), SET OF values are equal as multisets, the order
+    of the fields of a SEQUENCE value and unknown field names do not matter
+    (for extension additions presence must agree: a value with an addition
+    present after an absent mandatory one has no encoding). *)
+Theorem C03_der_canonical :
+  forall numeric e fuel t v1 v2 bs,
+    scope_enc numeric e fuel t = true ->
+    veq e fuel t v1 v2 ->
+    X690.der_encode numeric e fuel t v1 = Some bs -> small bs ->
+    DerImpl.der_encode numeric fuel e t v1 = Ok bs /\ DerImpl.der_encode numeric fuel e t v2 = Ok bs.
+Proof. exact der_canonical. Qed.
+Print Assumptions C03_der_canonical.
+
+(** the same on the specification alone: abstractly equal values have the same
+    distinguished encoding *)
+Theorem C03_x690_canonical :
+  forall numeric e fuel t v1 v2 bs,
+    scope_enc numeric e fuel t = true -> veq e fuel t v1 v2 ->
+    X690.der_encode numeric e fuel t v1 = Some bs -> X690.der_encode numeric e fuel t v2 = Some bs.
+Proof. exact x690_canonical. Qed.
+Print Assumptions C03_x690_canonical.
+
+(** [veq] relates different concrete values (DEFAULT present / absent, named
+    bits with trailing zeros, SET OF in two orders) *)
+Example C03_veq_nontrivial :
+  ex_seq_v1 <> ex_seq_v2 /\ veq [] 2 ex_seq ex_seq_v1 ex_seq_v2 /\
+  VBits [128] 1 <> VBits [128] 3 /\ veq [] 1 ex_bits (VBits [128] 1) (VBits [128] 3) /\
+  VList [VInt 2; VInt 1] <> VList [VInt 1; VInt 2] /\
+  veq [] 2 ex_setof (VList [VInt 2; VInt 1]) (VList [VInt 1; VInt 2]).
+Proof.
+  destruct ex_seq_veq as (A & _ & B & _). destruct ex_bits_veq as (C & D & _). destruct ex_setof_veq as (E & F & _).
+  exact (conj A (conj B (conj C (conj D (conj E F))))).
+Qed.
+Print Assumptions C03_veq_nontrivial.
+
+(** every strict prefix of a DER encoder output is rejected with a decode error *)
+Theorem C03_der_truncation :
+  forall numeric e fuel t v bs k,
+    scope_enc numeric e fuel t = true -> scope_dec e fuel t = true -> compiles_g true e fuel t = true ->
+    DerImpl.der_encode numeric fuel e t v = Ok bs -> BerTrunc.small bs -> (k < length bs)%nat ->
+    exists err, DerImpl.der_decode numeric fuel e t (firstn k bs) = Err err /\ is_decode_error err = true.
+Proof. exact der_truncation. Qed.
+Print Assumptions C03_der_truncation.
 
 (** Non-vacuity: a SET with an extension addition, tags of three classes (one
     >= 31, EXPLICIT), a DEFAULT component given with its default value, a
